@@ -47,7 +47,7 @@ def run(run):
         NUM_WORKERS = 5
     h = C.Harness()
     rng = run.rng
-    quick = run.tier == "quick"
+    quick = run.depth == "quick"
     stats = collections.Counter()
     have_setpriv = shutil.which("setpriv") is not None
     try:
